@@ -20,7 +20,7 @@ THEOREMS = ['Fsic.C15.' + n for n in [
 RULE = ('two streams. (a) symbol LISTS that no single parse_model() call returns: permutations, concatenations of two '
         'models (with and without shared names), verbatim symbols before/between equations, repeated symbols, a verbatim '
         'block rescaling a variable that a later equation reads (order observable in the results, checked against running '
-        'each symbol\'s code in list order). Every build is also solved on spans of length LAGS+LEADS+{0,1,2} with default and explicit start/end and compared with the hand-computable expectation (positions, statuses, values of one in-order pass; full trivial solve for models without endogenous variables), and rebuilt with the lags/leads/min_* settings given as NumPy integer scalars (int64, int32, intp, uint8, int16, array element, array max; bool and float left out because HEAD itself writes them verbatim): byte-identical text, executable in the plain-int namespace, LAGS/LEADS plain ints, all three routes. (b) grammar programs (gen_scripts.gen_program with verbatim fragments and named periods) extended with fenced '
+        'each symbol\'s code in list order). Every build is also solved on spans of length LAGS+LEADS+{0,1,2} with default and explicit start/end and compared with the hand-computable expectation (positions, statuses, values of one in-order pass; full trivial solve for models without endogenous variables), and rebuilt with the lags/leads/min_* settings given as NumPy integer scalars (int64, int32, intp, uint8, int16, array element, array max; bool and float left out because HEAD itself writes them verbatim): byte-identical text, executable in the plain-int namespace, LAGS/LEADS plain ints, all three routes. Lists also hold symbols whose equation/code are falsy but not None (empty / comment-only / whitespace fences from parse_model and hand-built; they carry an equation: converter called, output inserted) with a marking converter in place of the if-wrapping one, and exogenous-only / verbatim-only lists; every evaluation and boundary solve runs in a sampled numeric dtype (float64, float32, int) against the reference in that dtype, and every model without endogenous variables is solved in each dtype HEAD accepts (float64, float32, int, bool, str, object). (b) grammar programs (gen_scripts.gen_program with verbatim fragments and named periods) extended with fenced '
         'verbatim blocks (incl. blank lines and nested indentation), plus the empty script, verbatim-only scripts and '
         'symbol lists with the equation of one endogenous symbol removed; crossed with with_type_hints in {True,False} x '
         'lag/lead settings (default + rows of the C03 Latin design) x converter in {default, identity-on-code, wrapping '
@@ -92,7 +92,19 @@ def symbols_of(case, prog):
 
 
 LIST_OPS = ['perm', 'verb-first', 'interleave', 'concat', 'concat-interleave', 'dup', 'rescale-before', 'rescale-between',
-            'concat-dupnames']
+            'concat-dupnames', 'falsy', 'falsy', 'no-endogenous']
+DTYPES_ALL = {'float64': float, 'float32': np.float32, 'int': int, 'bool': bool, 'str': str, 'object': object}
+DTYPES_NUMERIC = {'float64': None, 'float32': np.float32, 'int': int}   # those in which HEAD evaluates equations
+
+
+def falsy_symbols():
+    """Symbols whose equation / code are falsy but not None: they DO carry an equation (HEAD calls the converter for them
+    and inserts its output) — from comment-only / empty fences via parse_model, and hand-built."""
+    S, T = P.Symbol, P.Type
+    out = list(pc.parse_model('```\n# TODO only\n```')) + list(pc.parse_model('```\n\n```')) + list(pc.parse_model('```\n   \n```'))
+    out += [S(None, T.VERBATIM, None, None, '', ''), S(None, T.VERBATIM, None, None, '', 'pass'),
+            S(None, T.VERBATIM, None, None, '```\npass\n```', ' ')]
+    return out
 
 
 def gen_list_case(rng):
@@ -154,6 +166,19 @@ def list_symbols(case):
         for _ in range(rng.randint(1, 2)):
             if carrying:
                 syms.insert(rng.randint(0, len(syms)), rng.choice(carrying))
+    elif op == 'falsy':
+        pool = falsy_symbols()
+        for _ in range(rng.randint(1, 3)):
+            syms.insert(rng.randint(0, len(syms)), rng.choice(pool))
+        endo = [i for i, s_ in enumerate(syms) if s_.type == P.Type.ENDOGENOUS and s_.code]
+        if endo and rng.random() < 0.5:     # an equation whose text is '' (its code still runs) or whose code is ''
+            i = rng.choice(endo)
+            syms[i] = syms[i]._replace(equation='') if rng.random() < 0.5 else syms[i]._replace(code='')
+    elif op == 'no-endogenous':
+        # exogenous-only (plus verbatim) model: nothing to converge on
+        syms = [s_ for s_ in syms if s_.type in (P.Type.EXOGENOUS, P.Type.PARAMETER, P.Type.ERROR, P.Type.VERBATIM)]
+        if rng.random() < 0.5:
+            syms = [s_ for s_ in syms if s_.type != P.Type.VERBATIM]
     elif op in ('rescale-before', 'rescale-between'):
         # a verbatim block that changes a variable which a later equation reads in the same period
         target = None
@@ -184,7 +209,7 @@ def materialise(case):
     return text, symbols, [prog]
 
 
-def reference_evaluate(symbols, labels, names_data, periods, kw):
+def reference_evaluate(symbols, labels, names_data, periods, kw, dtype=None):
     """Independent of build_model_definition's own code block: a class built from the same symbols WITHOUT any code,
     then every code-carrying symbol's `code` executed in symbol-list order.  Same output format as `evaluate`."""
     Bare = P.build_model([s_._replace(equation=None, code=None) for s_ in symbols], **kw)
@@ -193,7 +218,7 @@ def reference_evaluate(symbols, labels, names_data, periods, kw):
         exc = None
         vals = None
         try:
-            m = Bare(list(labels))
+            m = Bare(list(labels), **({'dtype': dtype} if dtype is not None else {}))
             for name, arr in names_data.items():
                 if name in m.names:
                     m[name] = arr.copy()
@@ -213,11 +238,11 @@ def reference_evaluate(symbols, labels, names_data, periods, kw):
     return out
 
 
-def reference_solve(symbols, labels, names_data, positions, kw):
+def reference_solve(symbols, labels, names_data, positions, kw, dtype=None):
     """One evaluation pass at each of `positions`, in order, on ONE instance of the code-free class: what
     `solve(max_iter=1)` has to leave behind.  Returns (raised?, values as bit patterns)."""
     Bare = P.build_model([s_._replace(equation=None, code=None) for s_ in symbols], **kw)
-    m = Bare(list(labels))
+    m = Bare(list(labels), **({'dtype': dtype} if dtype is not None else {}))
     for name, arr in names_data.items():
         if name in m.names:
             m[name] = arr[:len(labels)].copy()
@@ -235,7 +260,7 @@ def reference_solve(symbols, labels, names_data, positions, kw):
     return raised, [[bits(v) for v in m[name]] for name in m.names]
 
 
-def boundary_oracle(rep, info, Model, symbols, kw, str_labels, names_data, has_endogenous):
+def boundary_oracle(rep, info, Model, symbols, kw, str_labels, names_data, has_endogenous, dtype=None):
     """Spans of length LAGS+LEADS+{0,1,2}: with default (and explicit) start/end exactly the periods LAGS .. n-1-LEADS are
     solved — one period when n = LAGS+LEADS+1 — and `solve(max_iter=1)` leaves the values of one in-order pass per period."""
     L, D = Model.LAGS, Model.LEADS
@@ -261,11 +286,13 @@ def boundary_oracle(rep, info, Model, symbols, kw, str_labels, names_data, has_e
             rep.violate('boundary-range', f'span of {n} = LAGS+LEADS: default range {got}, expected nothing to solve', binfo)
         if not want:
             continue
-        want_raised, want_vals = reference_solve(symbols, labels, names_data, want, kw)
+        dkw = {'dtype': dtype} if dtype is not None else {}
+        binfo = binfo | {'dtype': getattr(dtype, '__name__', str(dtype))}
+        want_raised, want_vals = reference_solve(symbols, labels, names_data, want, kw, dtype)
         calls = [('default', {})]
         calls.append(('explicit', {'start': labels[want[0]], 'end': labels[want[-1]]}))
         for label, se in calls:
-            m = Model(list(labels))
+            m = Model(list(labels), **dkw)
             for name, arr in names_data.items():
                 if name in m.names:
                     m[name] = arr[:n].copy()
@@ -294,18 +321,21 @@ def boundary_oracle(rep, info, Model, symbols, kw, str_labels, names_data, has_e
             elif vals != want_vals:
                 rep.violate('boundary-solve', f'{label} solve(max_iter=1) on a span of {n} = LAGS+LEADS+{extra}: values differ from '
                             f'one in-order pass at positions {want}', binfo)
-        if not has_endogenous:
-            # nothing to converge on: a full default solve() succeeds with status '.' on exactly those periods
-            try:
-                m = Model(list(labels))
-                ret = m.solve()
-                status = ''.join(str(x) for x in m.status)
-                ok = (list(ret[1]) == want and all(ret[2]) and all((status[i] == '.') == (i in want) for i in range(n)))
-            except Exception as e:  # noqa: BLE001
-                ok, status, ret = False, pc.exc_name(e), None
-            if not ok:
-                rep.violate('boundary-trivial-solve', f'model without endogenous variables on a span of {n}: solve() gave '
-                            f'{ret} / status {status!r}, expected positions {want} all solved', binfo)
+        if not has_endogenous and not any(carries(s_) for s_ in symbols if s_.code and 'self._' in s_.code):
+            # nothing to converge on: a full default solve() succeeds with status '.' on exactly those periods, whatever
+            # the dtype of the instance (every dtype HEAD accepts)
+            for dname, dt in DTYPES_ALL.items():
+                try:
+                    m = Model(list(labels), dtype=dt)
+                    ret = m.solve()
+                    status = ''.join(str(x) for x in m.status)
+                    ok = (list(ret[1]) == want and all(ret[2]) and all((status[i] == '.') == (i in want) for i in range(n)))
+                except Exception as e:  # noqa: BLE001
+                    ok, status, ret = False, pc.exc_name(e) + ': ' + str(e)[:100], None
+                rep.dist['trivial-dtype:' + dname] += 1
+                if not ok:
+                    rep.violate('boundary-trivial-solve', f'model without endogenous variables, dtype={dname}, on a span of {n}: '
+                                f'solve() gave {ret} / {status!r}, expected positions {want} all solved', binfo | {'dtype': dname})
 
 
 INT_FORMS = {
@@ -399,12 +429,12 @@ def bits(x):
     return struct.unpack('<Q', struct.pack('<d', float(x)))[0]
 
 
-def evaluate(Model, labels, names_data, periods):
+def evaluate(Model, labels, names_data, periods, dtype=None):
     """`_evaluate` at each period on a fresh instance; (exception class or None, all values as bit patterns)."""
     out = []
     for t in periods:
         try:
-            m = Model(list(labels))
+            m = Model(list(labels), **({'dtype': dtype} if dtype is not None else {}))
             for name, arr in names_data.items():
                 if name in m.names:
                     m[name] = arr.copy()
@@ -476,12 +506,19 @@ def run_case(ctx, rep, case, batch):
     expected_log = [s for s in symbols if carries(s)]
     sym_j = pc.syms_json(symbols)
 
+    falsy_case = any(carries(s) and (not s.code.strip() or not s.equation) for s in symbols)
+    if falsy_case:
+        rep.dist['list:falsy-code-or-equation'] += 1
     for o in opt_sets:
         kw = kwargs_of(o)
+        dname = rng.choice(['float64', 'float64', 'float32', 'int'])
+        dt = DTYPES_NUMERIC[dname]
         for cname, conv in pc.CONVERTERS.items():
             if cname == 'empty' and rng.random() < 0.7:
                 continue
-            info = {k: v for k, v in case.items() if k != 'text'} | {'text': text, 'opts': o, 'converter': cname}
+            if cname == ('wrap' if falsy_case else 'mark'):
+                continue   # `wrap` puts the code under an `if`: not valid Python for an empty code; `mark` is its stand-in
+            info = {k: v for k, v in case.items() if k != 'text'} | {'text': text, 'opts': o, 'converter': cname, 'dtype': dname}
             variants = {}
             logs = {}
             bodies = {}
@@ -521,10 +558,11 @@ def run_case(ctx, rep, case, batch):
             # (1) same lists and lengths, (2) same evaluation results
             ref_key = (True, 'build_model')
             ref_attrs = class_attrs(variants[ref_key])
-            ref_eval = evaluate(variants[ref_key], case['labels'], data, periods)
+            rep.dist['dtype:' + dname] += 1
+            ref_eval = evaluate(variants[ref_key], case['labels'], data, periods, dt)
             # the code blocks run in SYMBOL-LIST order: compare with executing each symbol's code in that order
-            if dupfree and cname in ('default', 'code', 'wrap'):
-                want_eval = reference_evaluate(symbols, case['labels'], data, periods, kw)
+            if dupfree and cname in ('default', 'code', 'wrap', 'mark'):
+                want_eval = reference_evaluate(symbols, case['labels'], data, periods, kw, dt)
                 rep.dist['order-oracle:evaluated'] += 1
                 if want_eval != ref_eval:
                     bad = next(((x, y) for x, y in zip(ref_eval, want_eval) if x != y), None)
@@ -538,7 +576,7 @@ def run_case(ctx, rep, case, batch):
                 if a != ref_attrs:
                     rep.violate('variants-attrs' + ('' if key[0] else '-untyped'),
                                 f'{key} has {a}, {ref_key} has {ref_attrs}', info)
-                ev = evaluate(M, case['labels'], data, periods)
+                ev = evaluate(M, case['labels'], data, periods, dt)
                 if ev != ref_eval:
                     rep.violate('variants-evaluate' + ('' if key[0] else '-untyped'),
                                 f'_evaluate differs between {key} and {ref_key} (first differing period: '
@@ -555,7 +593,7 @@ def run_case(ctx, rep, case, batch):
                 which = (True, 'build_model') if rng.random() < 0.5 else (False, 'exec(CODE)')
                 bdata = {k: np.concatenate([v, v, v, v]) for k, v in data.items()}
                 boundary_oracle(rep, info, variants[which], symbols, kw, isinstance(case['labels'][0], str), bdata,
-                                any(s.type == P.Type.ENDOGENOUS for s in symbols))
+                                any(s.type == P.Type.ENDOGENOUS for s in symbols), dt)
             # symbols without an equation contribute variables but no code: lists follow the symbol types
             by_type = {'ENDOGENOUS': P.Type.ENDOGENOUS, 'EXOGENOUS': P.Type.EXOGENOUS, 'PARAMETERS': P.Type.PARAMETER,
                        'ERRORS': P.Type.ERROR}
@@ -605,6 +643,23 @@ def trivial_solve(ctx, rep, case, symbols, batch):
             try:
                 A = P.build_model(symbols, with_type_hints=typed)
                 routes = {'build_model': A, 'exec(CODE)': exec_class(A.CODE, typed)}
+                if (min_iter, max_iter) == (0, 100) and not any(s_.code and 'self._' in s_.code for s_ in symbols if carries(s_)):
+                    # every dtype HEAD accepts: nothing to converge on, so the model solves whatever its values are
+                    for route, M in routes.items():
+                        for dname, dt in DTYPES_ALL.items():
+                            try:
+                                m = M(list(case['labels']), dtype=dt)
+                                labels, indexes, solved = m.solve()
+                                want_pos = list(range(M.LAGS, len(case['labels']) - M.LEADS))
+                                ok = (all(solved) and list(indexes) == want_pos
+                                      and all((str(x) == '.') == (i in want_pos) for i, x in enumerate(m.status)))
+                                why = f'solved={solved}'
+                            except Exception as e:  # noqa: BLE001
+                                ok, why = False, f'{pc.exc_name(e)}: {str(e)[:120]}'
+                            rep.dist['trivial-dtype:' + dname] += 1
+                            if not ok:
+                                rep.violate('empty-model-solve', f'{route} (with_type_hints={typed}), dtype={dname}: a model without '
+                                            f'endogenous variables did not solve trivially: {why}', info | {'dtype': dname})
                 for route, M in routes.items():
                     calls = []
 
@@ -624,7 +679,9 @@ def trivial_solve(ctx, rep, case, symbols, batch):
                     labels, indexes, solved = m.solve(min_iter=min_iter, max_iter=max_iter)
                     n = len(case['labels'])
                     status = ''.join(str(x) for x in m.status)
-                    if not (all(solved) and len(solved) == n and status == '.' * n and list(labels) == list(case['labels'])):
+                    want_pos = list(range(M.LAGS, n - M.LEADS))
+                    if not (all(solved) and list(indexes) == want_pos
+                            and all((status[i] == '.') == (i in want_pos) for i in range(n))):
                         rep.violate('empty-model-solve', f'{route} (with_type_hints={typed}): solve(min_iter={min_iter}, max_iter={max_iter}) '
                                     f'gave solved={solved}, status={status!r}', info)
                     rep.case(('trivial', case['text'], typed, route, min_iter, max_iter), nontrivial=False)
@@ -696,7 +753,7 @@ def namespace_note(rep):
 
 
 def run(ctx, rep):
-    n_cases = (200 if ctx.tier == 'quick' else 2000) * ctx.scale
+    n_cases = (200 if ctx.tier == 'quick' else 1700) * ctx.scale
     text_level_correspondence(ctx, rep)
     namespace_note(rep)
     batch = []
@@ -711,7 +768,7 @@ def run(ctx, rep):
         run_case(ctx, rep, case, batch)
         if len(batch) > 20000:
             flush(ctx, rep, batch)
-    n_lists = (220 if ctx.tier == 'quick' else 2000) * ctx.scale
+    n_lists = (220 if ctx.tier == 'quick' else 1700) * ctx.scale
     for i in range(n_lists):
         case = gen_list_case(ctx.sub_rng('symlist', i))
         run_case(ctx, rep, case, batch)
